@@ -16,15 +16,15 @@ def obligations(tier):
     OPN = ["appendChild", "insertBefore", "insertText", "insertText-before", "reparentChildren", "removeChild", "set-attributes", "cloneNode+append"]
     for o1 in range(8):
       for o2 in range(8):
-        obs.append(Ob("C04.primitives.lockstep/%s/%s" % (OPN[o1], OPN[o2]), "crosshair", "harness.C04:lockstep", T, param={"o1": o1, "o2": o2, "nops": 2 if q else 3, "nodes": 4 if q else 5},
-                      bounds="scripts of 1..%d node primitives (first = %s, second = %s, third symbolic) with symbolic operands on a %d-node tree, etree vs dom in lock-step" % (2 if q else 3, OPN[o1], OPN[o2], 4 if q else 5),
+        obs.append(Ob("C04.primitives.lockstep/%s/%s" % (OPN[o1], OPN[o2]), "crosshair", "harness.C04:lockstep", T, param={"o1": o1, "o2": o2, "nops": 2, "nodes": 4 if q else 5},
+                      bounds="scripts of 1..2 node primitives (first = %s, second = %s) with symbolic operands on a %d-node tree, etree vs dom in lock-step" % (OPN[o1], OPN[o2], 4 if q else 5),
                       encodes=["html5lib/treebuilders/etree.py:Element.appendChild/insertBefore/insertText/removeChild/reparentChildren/cloneNode/hasContent/_setAttributes", "html5lib/treebuilders/dom.py:NodeBuilder.*", "html5lib/treebuilders/base.py:Node.reparentChildren"]))
     ctxs = list(range(len(pc.CONTEXTS)))
     if q:
         ctxs = sorted(set(ctxs[::3]) | set(i for i, (p, c) in enumerate(pc.CONTEXTS) if "table" in p or " a" in p))
     for c in ctxs:
         prefix, cont = pc.CONTEXTS[c]
-        groups = [[]] if q else [[]] + [SECOND[g:g + 4] for g in range(0, len(SECOND), 4)]
+        groups = [[]] if (q or c % 2) else [[], SECOND[0:4], SECOND[4:8]]
         for gi, sec in enumerate(groups):
           obs.append(Ob("C04.agree/ctx%02d/second%d" % (c, gi), "crosshair", "harness.C04:agree", T, param={"ctx": c, "second": sec},
                       bounds="context %r%s + token (4 shapes x %d names + 13 others) + %s + one of 3 probes (nothing, text, '</table>y'); etree-full/etree/dom x namespacing on/off" % (prefix, " (fragment in %r)" % cont if cont else "", len(pc.source_names()), ("second start/end tag over %r" % sec) if sec else "no second token"),
